@@ -53,30 +53,40 @@ class RecGrid:
 
 
 def observe_decisions(maxn, threads):
+    """Calls the real tsc_parallel on an empty particle set for every (n1d, coord, nthread, npartition).
+    The grid is anisotropic: the partition axis has n1d cells, the other axes have many more, so that a
+    rule evaluated on the wrong axis shows up as an unsafe accepted configuration.  n1d is taken from the
+    grid handed in, never from the hook event."""
     from abacusnbody import _verif_trace
     from abacusnbody.analysis.tsc import tsc_parallel
     pos = np.zeros((0, 3), dtype=np.float32)
     out = []
+    big = 3 * maxn + 7
     for n1d in range(1, maxn + 1):
-        grid = np.zeros((n1d, 3, 3), dtype=np.float32)
-        for t in threads:
-            for arg in range(0, n1d + 1):
-                ev = []
-                _verif_trace.sink = ev
-                try:
-                    with warnings.catch_warnings():
-                        warnings.simplefilter('ignore')
-                        tsc_parallel(pos, grid, 1.0, nthread=t, npartition=(arg or None))
-                    acc = True
-                except ValueError:
-                    acc = False
-                finally:
-                    _verif_trace.sink = None
-                cfgs = [e for e in ev if e['event'] == 'tsc_config']
-                p = cfgs[0]['npartition'] if cfgs else (arg or -1)
-                if acc and not cfgs:
-                    raise RuntimeError('tsc_config hook event missing (is ABACUSUTILS_VERIF=1 and the hook commit present?)')
-                out.append(dict(n1d=n1d, nthread=t, arg=arg, accepted=acc, np=max(int(p), 1) if acc else int(p)))
+        for coord in (0, 1, 2):
+            shape = [big, big + 1, big + 2]
+            shape[coord] = n1d
+            shape[(coord + 1) % 3] = 3 if coord == 0 else shape[(coord + 1) % 3]   # keep coord 0 grids small
+            shape[(coord + 2) % 3] = 3 if coord == 0 else shape[(coord + 2) % 3]
+            grid = np.zeros(shape, dtype=np.float32)
+            for t in (threads if coord == 0 else [2, 16]):
+                for arg in range(0, (n1d if coord == 0 else min(n1d, big)) + 1):
+                    ev = []
+                    _verif_trace.sink = ev
+                    try:
+                        with warnings.catch_warnings():
+                            warnings.simplefilter('ignore')
+                            tsc_parallel(pos, grid, 1.0, nthread=t, npartition=(arg or None), coord=coord)
+                        acc = True
+                    except ValueError:
+                        acc = False
+                    finally:
+                        _verif_trace.sink = None
+                    cfgs = [e for e in ev if e['event'] == 'tsc_config']
+                    p = cfgs[0]['npartition'] if cfgs else (arg or -1)
+                    if acc and not cfgs:
+                        raise RuntimeError('tsc_config hook event missing (is ABACUSUTILS_VERIF=1 and the hook commit present?)')
+                    out.append(dict(n1d=n1d, nthread=t, arg=arg, accepted=acc, np=max(int(p), 1) if acc else int(p), coord=coord))
     return out
 
 
@@ -157,6 +167,9 @@ ASSUME JsonSerialize(IOEnv.VERDICT_OUT, [fixed |-> SetToSeq(UnsafePairs({maxn_ru
     lim = 30 if chk.quick else 200
     # narrowest stripes first
     acc_conc.sort(key=lambda x: (x[0] / x[1], x[0]))
+    acc_all = acc_conc
+    # footprints / schedules / compiled comparisons need a grid the kernels can run on
+    acc_conc = [(n, p) for (n, p) in acc_conc if n >= 3 and p <= n]
     for (n1d, p) in acc_conc[:lim]:
         for o in (0, 2, -2, 1):
             for coord, dt in ((0, np.float32), (1, np.float64), (2, np.float32)):
@@ -172,7 +185,7 @@ ASSUME JsonSerialize(IOEnv.VERDICT_OUT, [fixed |-> SetToSeq(UnsafePairs({maxn_ru
     run_tlc(chk, 'MC_TscDecisions', module_text=ttext, cfg_text=tcfg, env={'TRACE_FILE': tf, 'VERDICT_OUT': vf2}, timeout=3000)
     v = read_json(vf2)
     nacc = sum(1 for d in dec if d['accepted'])
-    chk.part('M3_decisions', calls=len(dec), accepted=nacc, accepted_concurrent=len(acc_conc), unsafe=len(v['unsafe']),
+    chk.part('M3_decisions', calls=len(dec), accepted=nacc, accepted_concurrent=len(acc_all), unsafe=len(v['unsafe']),
              footprints=len(fps), footprint_conflicts=len(v['conflicts']), outside_model=len(v['outside']))
     chk.add_cases(len(dec) + len(fps), nontrivial=sum(1 for d in dec if d['accepted'] and d['nthread'] > 1 and d['np'] > 2) + len(fps),
                   traces=len(dec) + len(fps))
@@ -181,8 +194,8 @@ ASSUME JsonSerialize(IOEnv.VERDICT_OUT, [fixed |-> SetToSeq(UnsafePairs({maxn_ru
         chk.sample(dict(footprint={k: fps[0][k] for k in ('n1d', 'np', 'o', 'touched', 'nz')}))
     for i in v['unsafe']:
         d = dec[i - 1]
-        chk.violation(f'unsafe-accepted-{rel(d["n1d"], d["np"])}',
-                      f'tsc_parallel accepts n1d={d["n1d"]} nthread={d["nthread"]} npartition={"default" if d["arg"] == 0 else d["arg"]} -> {d["np"]} stripes; '
+        chk.violation(f'unsafe-accepted-{rel(d["n1d"], d["np"])}' + ('' if d.get('coord', 0) == 0 else '-coord>0'),
+                      f'tsc_parallel accepts n1d={d["n1d"]} (coord={d.get("coord", 0)}) nthread={d["nthread"]} npartition={"default" if d["arg"] == 0 else d["arg"]} -> {d["np"]} stripes; '
                       f'TLC: two stripes of the same pass update a common row', dict(kind='decision', **d))
     for i in v['conflicts']:
         f = fps[i - 1]
